@@ -43,6 +43,9 @@ pub struct Variant {
     dt_to: Option<NaiveDateTime>,
 }
 
+/// The longest text a function may build (1 GiB).
+const MAX_VALUE_LENGTH: u128 = 1 << 30;
+
 impl Variant {
     pub fn empty(value_type: VariantType) -> Variant {
         Variant {
@@ -676,6 +679,14 @@ pub fn get_value(
             let source = function_arg;
             let from = &function_args[0];
             let to = &function_args[1];
+
+            // (nested calls multiply the length of a value: what would not fit into memory is
+            // refused, the process is not left to die of it)
+            let occurrences = source.matches(from.as_str()).count() as u128;
+            let grown = source.len() as u128 + occurrences * to.len() as u128;
+            if grown > MAX_VALUE_LENGTH {
+                error_exit("REPLACE: the resulting value is too long", &format!("{} bytes", grown));
+            }
 
             let result = source.replace(from, to);
 
